@@ -71,6 +71,9 @@ func reportCase(r *rng.R, strategy string, prcnt int, start uint16, raws []int, 
 		if !protect(func() { err = profiler.DumpStatistics(sm2, file, labels, start, end, calc) }) && err == nil {
 			data, _ := os.ReadFile(file)
 			out = hex.EncodeToString(data)
+			if out == "" {
+				out = "-"
+			}
 		}
 	}
 	rs := make([]string, n)
